@@ -222,6 +222,19 @@ def returns_previous(f, role):
             return True
         return isinstance(t, list) and t[:1] == ["var"] and t[1] in aliases
 
+    def is_target(t):
+        # what is assigned TO must be the object itself (or a reference to it) - a copy of it is another object
+        while isinstance(t, list) and t:
+            if t[0] == "cast":
+                t = t[2]
+            elif t[0] == "call" and erase(t[2]) in ("std::move", "std::forward") and len(t[3]) == 1:
+                t = t[3][0]
+            else:
+                break
+        if lib.tree_name(t) == A[role]:
+            return True
+        return isinstance(t, list) and t[:1] == ["var"] and t[1] in aliases
+
     saved = None
     assigned = False
     for b, e in (f.flow_events() if hasattr(f, "flow_events") else f.events()):
@@ -230,8 +243,8 @@ def returns_previous(f, role):
                 aliases.add(e["var"])
             elif not assigned:
                 saved = e["var"]
-        if (e["e"] == "call" and e.get("op") == "=" and is_obj(e.get("recv"))) or \
-                (e["e"] == "assign" and e.get("op") == "=" and is_obj(e.get("lhs"))):
+        if (e["e"] == "call" and e.get("op") == "=" and is_target(e.get("recv"))) or \
+                (e["e"] == "assign" and e.get("op") == "=" and is_target(e.get("lhs"))):
             if saved is None:
                 return False, "the object is overwritten before its old value was saved"
             if "param" not in str(e.get("args") if e["e"] == "call" else e.get("rhs")):
@@ -269,7 +282,14 @@ def run(ctx):
     ctx.not_decided = ["what the installed reporter does with the text"]
     total_sites = 0
     units = []
-    for tu in ctx.units(lambda n: not n.startswith("print") and not n.startswith("match")):
+    def want(n):
+        return not n.startswith("print") and not n.startswith("match")
+    want.with_cpp11 = True     # the C++11 level installs reporters through the library's own exchange()
+    for tu in ctx.units(want):
+        if tu.name == "cpp11":
+            c16c(ctx, tu)
+            units.append({"unit": tu.name, "functions": len(tu.fns)})
+            continue
         c16a(ctx, tu)
         total_sites += c16b(ctx, tu)
         c16c(ctx, tu)
